@@ -58,6 +58,7 @@ fn run(name: &str, args: &Value) -> Value {
         "c07_http" => c07::http(args),
         "c19_chunking" => c19::chunking(args),
         "c19_leading_ws" => c19::leading_ws(args),
+        "c19_proxy_get" => c19::proxy_get(args),
         "c19_content_length" => c19::content_length(args),
         "c19_content_types" => c19::content_types(args),
         "c20_script" => c20::script(args),
